@@ -83,4 +83,27 @@ def ValidF : NFields → Prop
 end
 
 
+mutual
+/-- no explicit `=` operator call: the canonical form a tape gives rise to (a tape has no token for `=`) -/
+def CanonV : NVal → Prop
+  | .scal _ => True
+  | .obj _ o v r => o ≠ some .eq ∧ CanonV v ∧ CanonF r
+def CanonF : NFields → Prop
+  | .nil => True
+  | .cons _ o v r => o ≠ some .eq ∧ CanonV v ∧ CanonF r
+end
+
+
+/-! #### the content of a nested-object document in the text-tape slice's terms -/
+
+mutual
+def kOfV : NVal → TextTape.KVal
+  | .scal c => .scal c.scal
+  | .obj k o v r => .obj (.cons k.scal (opOf o) (kOfV v) (kOfF r))
+def kOfF : NFields → TextTape.KFields
+  | .nil => .nil
+  | .cons k o v r => .cons k.scal (opOf o) (kOfV v) (kOfF r)
+end
+
+
 end Jomini.Writer.Spec
